@@ -438,7 +438,13 @@ ENUM_CTX_KWS = [
     KW(format="base16", ns_map=[["u", "urn:u"]]),
 ]
 ENUM_CTX_STRINGS = ["u:a", "a", " u:a ", "w:a", "ABCD", "abcd", " ABCD", "{urn:v}a"]
+ENUM_SETS += [
+    [{"t": "qname", "v": " q"}, {"t": "str", "v": "z "}, {"t": "str", "v": "z"}, {"t": "int", "v": 7}],
+    [{"t": "str", "v": "x"}, {"t": "str", "v": " x"}, {"t": "str", "v": "a b"}, {"t": "str", "v": "a  b"}, {"t": "str", "v": "\ta"}],
+    [{"t": "dec", "k": "fin", "neg": False, "coeff": 15, "exp": -1}, {"t": "tuple", "v": [{"t": "dec", "k": "fin", "neg": False, "coeff": 1, "exp": 0}, {"t": "str", "v": "k"}]}],
+]
 ENUM_STRINGS = [
+    " q", "q", "z ", " z ", "z", " 7", "\ta", "\ta ", "a  b ", " a  b", "sNaN", "snan", "-sNaN12", "sNaN k", "1 sNaN", "NaN",
     "a", " a ", "b c", "b  c", " b\tc\n", "", " ", "  ", " x", "x", "a  b", "a b", "1", " 1 ", "01", "1.0", "1.50", "1.5", "10", "-5", "1e22", "1E22", "1E+22", "nan", "NaN", "INF", "inf",
     "0", "-0", "0.0", "1000", "1E3", "-Infinity", "-INF", "a b", "b a", "1 2 3", "1 2", "1  2\t3", "01 2.0 3", "true", "false", "1", "0", "{urn:u}a", "u:a", "b", "{urn:a-b}c", "a:c",
     "1.0 x", "1 x", "x 1.0", "2", "2.0", "QUI=", "FF", "ff", "4142", "2000-01-02", "01:02:03Z", "01:02:03", "2000-01-02 ",
@@ -573,24 +579,6 @@ def exhaustive(alpha, maxlen):
             yield "".join(tup)
 
 
-def snan_hazard(c):
-    """Decimal('sNaN') == member_value raises decimal.InvalidOperation inside
-    EnumConverter._match_atomic (finding C05-enum-snan-leak); the model does not
-    cover signaling NaNs, so such cases are left out of the correspondence."""
-    def has_dec(m):
-        return m["t"] == "dec" or (m["t"] == "tuple" and any(x["t"] == "dec" for x in m["v"]))
-
-    if not any(isinstance(t, dict) and any(has_dec(m) for m in t["enum"]) for t in c["types"]):
-        return False
-    for tok in c["s"].split():
-        try:
-            if Decimal(tok).is_snan():
-                return True
-        except Exception:  # noqa: BLE001
-            pass
-    return False
-
-
 _HUGE_EXP = re.compile(r"[eE][+-]?[0-9٠-٩_]{7,}|[0-9]{40,}[eE]?[0-9]+\Z")
 
 
@@ -619,7 +607,7 @@ def gen_de(rng, tier):
         yield de_case(s, ["float"])
         yield de_case(s, ["Decimal", "str"])
     for c in gen_de_all(rng, tier):
-        if not snan_hazard(c) and not huge_exp_hazard(c):
+        if not huge_exp_hazard(c):
             yield c
 
 
@@ -803,6 +791,10 @@ def gen_ser(rng, tier):
             yield {"v": {"t": "qname", "v": q}, "kw": KW(ns_map=m)}
     # lists and members
     yield {"v": {"t": "list", "v": []}, "kw": KW()}
+    yield {"v": {"t": "tuple", "v": []}, "kw": KW()}
+    yield {"v": {"t": "tuple", "v": [enc_atom(1), enc_atom("a"), enc_atom(2.5), enc_atom(XmlDate(2000, 1, 2))]}, "kw": KW()}
+    yield {"v": {"t": "tuple", "v": [{"t": "qname", "v": "{urn:p}a"}, {"t": "qname", "v": "{urn:q}b"}]}, "kw": KW(ns_map=[])}
+    yield {"v": {"t": "list", "v": [enc_atom(XmlDate(2000, 1, 2)), enc_atom(XmlTime(1, 2, 3))]}, "kw": KW()}
     yield {"v": {"t": "list", "v": [enc_atom(1), enc_atom(2.5), enc_atom("a b"), enc_atom(True)]}, "kw": KW()}
     yield {"v": {"t": "list", "v": [{"t": "qname", "v": "{urn:p}a"}, {"t": "qname", "v": "{urn:q}b"}, {"t": "qname", "v": "{urn:p}c"}]}, "kw": KW(ns_map=[])}
     yield {"v": {"t": "list", "v": [{"t": "qname", "v": "{urn:p}a"}, {"t": "qname", "v": "{urn:q}b"}]}, "kw": KW(ns_map=[["ns1", "urn:z"]])}
@@ -816,7 +808,7 @@ def gen_ser(rng, tier):
         r = rng.random()
         if r < 0.1:
             items = [enc_atom(rand_atom(rng, rng.choice(["int", "float", "QName", "str", "Decimal"]))) for _ in range(rng.randint(0, 4))]
-            yield {"v": {"t": "list", "v": items}, "kw": KW(ns_map=rng.choice(NS_MAPS))}
+            yield {"v": {"t": rng.choice(["list", "tuple"]), "v": items}, "kw": KW(ns_map=rng.choice(NS_MAPS))}
         elif r < 0.2:
             yield {"v": {"t": "member", "v": enc_atom(v)}, "kw": kw}
         else:
@@ -1123,6 +1115,18 @@ def oracle_accepts(a):
     candidate list the documented priority order decides"""
     s, kw = a["s"], a["kw"]
     kwargs = dec_kw(kw)
+    # documented contract of deserialize: a value, or ConverterError — nothing else escapes
+    try:
+        all_types = [dec_type(t) for t in a["types"] if not isinstance(t, str) or t in TYPES]
+    except Exception:  # noqa: BLE001  (aliased enum members: not a case)
+        all_types = None
+    if all_types:
+        try:
+            converter.deserialize(s, all_types, **kwargs)
+        except ConverterError:
+            pass
+        except Exception as e:  # noqa: BLE001
+            return f"deserialize({s!r}, {[getattr(t, '__name__', t) for t in all_types]}) raised {type(e).__name__} instead of ConverterError"
     for t in a["types"]:
         if not isinstance(t, str):
             continue
@@ -1190,9 +1194,13 @@ def _enum_accepts(members, s, kw, kwargs):
     exp = None
     if kind == "str":
         vals = [m["v"] for m in members]
-        if any(v != collapse(v) for v in vals):
-            return None  # white-space-significant values: finding C05-enum-str-whitespace
-        if c in vals and s.strip() == s.strip(XSD_WS):
+        if s in vals and not any(w in (s.strip(), " ".join(s.split())) for w in vals if w != s):
+            # the lexical form is a member's value verbatim (xs:string enumerations keep white space);
+            # not judged when another member is a white-space variant of it (the lenient match is ambiguous then)
+            exp = vals.index(s)
+        elif any(v != collapse(v) for v in vals):
+            return None
+        elif c in vals and s.strip() == s.strip(XSD_WS):
             exp = vals.index(c)
     elif kind in ("int", "dec", "float", "bool"):
         t = {"int": "int", "dec": "Decimal", "float": "float", "bool": "bool"}[kind]
@@ -1289,10 +1297,17 @@ def oracle_roundtrip(a):
     v = dec_servalue(a["v"])
     kw = a["kw"]
     kwargs = dec_kw(kw)
-    if isinstance(v, list):
+    if isinstance(v, (list, tuple)):
         return None
     member = v if isinstance(v, Enum) else None
     val = member.value if member is not None else v
+    if isinstance(val, tuple):
+        # a token list: items are non-empty and free of white space; NaN decimals never compare equal
+        for x in val:
+            if isinstance(x, str) and (not x or x.split() != [x]):
+                return None
+            if isinstance(x, Decimal) and x.is_nan():
+                return None
     if isinstance(val, str):
         if member is None:
             return None
@@ -1446,11 +1461,6 @@ def oracle_is_uri(a):
     return None
 
 
-def covered_is_uri(a, msg):
-    s = a.get("s") or ""
-    return "C05-uri-empty-fragment" if _is_empty_fragment_uri(s) else None
-
-
 def oracle_helpers(a):
     """build_qname / split_qname are inverse on well-formed parts; is_ncname agrees with XML NCName"""
     s = a.get("s")
@@ -1495,25 +1505,14 @@ def _is_uri_ref(u):
     return bool(u) and re.fullmatch(f"{_RFC}*(?:#{_RFC}*)?", u) is not None
 
 
-def _is_empty_fragment_uri(u):
-    """URI reference that ends in '#' (empty fragment), e.g. http://www.w3.org/2000/09/xmldsig#"""
-    return _is_uri_ref(u) and u.endswith("#")
-
-
 def covered_roundtrip(a, msg):
     v = a["v"]
     kw = a["kw"]
     inner = v["v"] if v["t"] == "member" else v
-    if v["t"] == "member" and inner["t"] == "tuple":
-        return "C05-enum-tuple-serialize"
-    if v["t"] == "member" and inner["t"] == "str" and inner["v"] != inner["v"].strip():
-        return "C05-enum-str-whitespace"
     if inner["t"] == "qname":
         ns, local = qname_parts(inner["v"])
         if _is_marked_name(local):
             return "C05-ncname-unicode"
-        if kw.get("ns_map") is None and ns is not None and _is_empty_fragment_uri(ns):
-            return "C05-uri-empty-fragment"
         if kw.get("ns_map") is not None:
             m = kw["ns_map"]
             if ns is None and _has_default_ns(kw):
@@ -1604,7 +1603,7 @@ ORACLES = [
     Oracle("c05.sort", gen_sort, oracle_sort, from_ops=("conv.sort",)),
     Oracle("c05.from_value", gen_from_value, oracle_from_value, from_ops=("conv.from_value",)),
     Oracle("c05.registry", gen_type_converter, oracle_registry, from_ops=("conv.type_converter",)),
-    Oracle("c05.is_uri", gen_is_uri, oracle_is_uri, covered=covered_is_uri, from_ops=("ns.is_uri",)),
+    Oracle("c05.is_uri", gen_is_uri, oracle_is_uri, from_ops=("ns.is_uri",)),
     Oracle("c05.helpers", gen_o_helpers, oracle_helpers, covered=covered_helpers, from_ops=("ns.is_ncname", "ns.split_qname")),
 ]
 
@@ -1619,16 +1618,6 @@ def f_default_ns():
     return back.text != "y", f"QName('y') -> {s!r} -> {back.text!r} under ns_map {{None: 'urn:x'}}"
 
 
-def f_uri_empty_fragment():
-    q = QName("{http://www.w3.org/2000/09/xmldsig#}Signature")
-    s = converter.serialize(q)
-    try:
-        back = converter.deserialize(s, [QName])
-    except ConverterError:
-        return True, f"serialize -> {s!r}; deserialize raises ConverterError (is_uri wants a character after '#')"
-    return back.text != q.text, f"{s!r} -> {back.text!r}"
-
-
 def f_ncname_marks():
     try:
         converter.deserialize("कि", [QName])
@@ -1637,43 +1626,9 @@ def f_ncname_marks():
     return False, "accepted"
 
 
-def f_enum_tuple():
-    E = Enum("E", [("A", ("a", "b"))])
-    try:
-        s = converter.serialize(E.A)
-    except ConverterError as e:
-        return True, f"serialize(E.A) raises ConverterError: {e}"
-    return False, f"serialize(E.A) = {s!r}"
-
-
-def f_enum_ws():
-    E = Enum("E", [("A", " x")])
-    s = converter.serialize(E.A)
-    try:
-        back = converter.deserialize(s, [E])
-    except ConverterError:
-        return True, f"serialize(E.A) = {s!r} is rejected by deserialize"
-    return back is not E.A, f"{s!r} -> {back!r}"
-
-
-def f_snan_leak():
-    E = Enum("E", [("A", Decimal("1.5"))])
-    try:
-        converter.deserialize("sNaN", [E])
-    except ConverterError:
-        return False, "ConverterError"
-    except Exception as e:  # noqa: BLE001
-        return True, f"converter.deserialize('sNaN', [E]) raises {type(e).__name__}, not ConverterError"
-    return False, "accepted"
-
-
 FINDINGS = {
-    "C05-enum-snan-leak": f_snan_leak,
     "C05-qname-default-ns": f_default_ns,
-    "C05-uri-empty-fragment": f_uri_empty_fragment,
     "C05-ncname-unicode": f_ncname_marks,
-    "C05-enum-tuple-serialize": f_enum_tuple,
-    "C05-enum-str-whitespace": f_enum_ws,
 }
 
 LEVEL_TEXT = (
